@@ -80,7 +80,7 @@ def render_roots(F):
         elif b.raw.get("implements", "").endswith("Clone::clone") and any(
                 x in b.raw.get("self_ty", "") for x in ("RenderTree", "RenderNode", "RenderTable", "ComputedStyle", "WithSpec")):
             roots.append(i)
-        elif i.startswith("RenderTree::") or i.startswith("<RenderTree as"):
+        elif i.startswith("RenderTree::"):
             roots.append(i)
     return sorted(set(roots))
 
@@ -200,6 +200,15 @@ def implies_ge_const(guards, ex, c):
     return False
 
 
+def implies_ne_zero(guards, ex):
+    for (op, ea, eb, truth) in guards:
+        for x, y in ((ea, eb), (eb, ea)):
+            if x == ex and const_int(y) == 0:
+                if (op == "Eq" and not truth) or (op == "Ne" and truth) or (op == "Gt" and truth and x == ea):
+                    return True
+    return False
+
+
 def discharge(F, mag, site):
     """returns (how, reason) or None"""
     b, bb, t = site.b, site.bb, site.term
@@ -217,6 +226,14 @@ def discharge(F, mag, site):
                 return ("D1", "memory-bounded value times a small constant")
         if k == "Sub":
             g = _cmp_guards(b, bb)
+            if len(site.ops) == 2 and site.ops[0].endswith("::MAX") and site.opty in ("usize", "u64"):
+                return ("D2", "subtraction from the maximum value cannot underflow")
+            if len(site.ops) == 2:
+                # a - min(a, _)
+                o = origin(b, ops[1])
+                if o is not None and o[0] == "call" and callee_method(o[1]) == "min" and \
+                        any(norm(b.expr(x)) == site.ops[0] for x in o[1]["args"]):
+                    return ("D2", "subtrahend is min(%s, _)" % site.ops[0])
             if len(site.ops) == 2:
                 if implies_le(g, site.ops[1], site.ops[0]):
                     return ("D2", "dominated by a comparison implying %s <= %s" % (site.ops[1], site.ops[0]))
@@ -224,12 +241,22 @@ def discharge(F, mag, site):
                 if c is not None and c > 0 and implies_ge_const(g, site.ops[0], c):
                     return ("D2", "dominated by a comparison implying %s >= %d" % (site.ops[0], c))
         if k in ("DivisionByZero", "RemainderByZero"):
-            c = const_int(site.ops[0]) if site.ops else None
-            if c is not None and c != 0:
-                return ("D2", "non-zero constant divisor")
-            g = _cmp_guards(b, bb)
-            if implies_ge_const(g, site.ops[0], 1):
-                return ("D2", "dominated by a test that the divisor is non-zero")
+            # the assert carries the dividend; the divisor is the operand compared with 0 in the condition
+            div = None
+            cpl = op_place(t["cond"])
+            if cpl is not None:
+                sd = b.single_def(cpl["l"])
+                if sd and sd[0] == "stmt" and (sd[3].get("rv") or {}).get("bin") == "Eq":
+                    div = sd[3]["rv"]["a"]
+            if div is not None:
+                dn = norm(b.expr(div))
+                dx = norm(b.expr_top(div, expand_named=True))
+                c = const_int(dx)
+                if c is not None and c != 0:
+                    return ("D2", "non-zero constant divisor %d" % c)
+                g = _cmp_guards(b, bb)
+                if implies_ge_const(g, dn, 1) or implies_ne_zero(g, dn):
+                    return ("D2", "dominated by a test that the divisor %s is non-zero" % dn)
         if k in ("Shr", "Shl"):
             c = const_int(site.ops[1]) if len(site.ops) > 1 else None
             if c is not None and 0 <= c < 32:
@@ -293,9 +320,46 @@ def discharge(F, mag, site):
                         some = [tb for v, tb in tt["targets"] if v == 1]
                         if some and b.dominates(some[0], bb):
                             return ("D2", "dominated by the Some edge of %s.first()" % recv)
+    if k in ("insert", "insert_str") and len(site.ops) > 1 and site.ops[1] == "0_usize":
+        return ("D2", "index 0 is always in bounds (and a char boundary)")
+    if k == "drain" and len(site.ops) > 1 and site.ops[1] == "ops::RangeFull{}":
+        return ("D2", "full range")
     if k in ("index", "index_mut"):
         # index into a Vec/slice by a loop variable of 0..len or enumerate of the same collection is not recognised
         # automatically; RangeFull on strings is total
         if len(t["args"]) > 1 and "RangeFull" in (op_place(t["args"][1]) or {}).get("ty", ""):
             return ("D2", "full range")
     return None
+
+
+def load_table():
+    """tables/panic_sites.txt: `site key :: invariant / reason` (one reviewed row per site key)"""
+    import os
+    from .facts import VERIF
+    rows = {}
+    p = os.path.join(VERIF, "tables", "panic_sites.txt")
+    if os.path.exists(p):
+        for line in open(p):
+            line = line.rstrip("\n")
+            if not line.strip() or line.startswith("#"):
+                continue
+            if " :: " in line:
+                k, r = line.split(" :: ", 1)
+                rows[k.strip()] = r.strip()
+    return rows
+
+
+def shared_borrow_rule(F, roots):
+    """RefCell::borrow() panics only while a mutable borrow of the same cell is live.  If no borrow_mut of a DOM
+    cell is reachable from the rendering entry points (everything except html5ever's TreeSink callbacks and
+    Node::drop, which run during parsing / destruction), shared borrows taken while rendering cannot conflict.
+    Returns (ok, set of body ids that are render-phase)."""
+    render_roots_only = [r for r in roots if "TreeSink>::" not in r and "Node as std::ops::Drop" not in r
+                         and not r.endswith("parse_html")]
+    reach = F.reachable_from(render_roots_only)
+    muts = []
+    for fid in reach:
+        b = F.bodies[fid]
+        for bb, t in b.calls(lambda cd, t: callee_method(t) == "borrow_mut" and "RefCell" in (callee_def(t) or "")):
+            muts.append((fid, t["span"]))
+    return (not muts, reach, muts)
